@@ -375,8 +375,8 @@ class PushStep(Unit):
 
         def inv(ex_, k):
             env = ex_.frame.env
-            nm = env["input_name"]
-            return fold_push_closed_form(ss0.f["inputs"][nm], env["grouped"], env["input_state"], k)
+            nm = aw.Roles().get(env, "input_name")
+            return fold_push_closed_form(ss0.f["inputs"][nm], aw.Roles().get(env, "grouped"), aw.Roles().get(env, "input_state"), k)
 
         ex.loops[("push_step", 1)] = LoopSpec(inv)
         try:
